@@ -129,7 +129,10 @@ def stray_packets(rng, n_points=4, live_ids=()):
 
 
 def base_env(rng, sim=None, frag=True):
-    env = dict(sim=sim or {}, dt=rng.choice([0, 1, 1, 1, 3]))
+    sim = sim if sim is not None else {}
+    if "version" not in sim and rng.random() < 0.3:
+        sim["version"] = rng.choice([0x01000001, 0x01000001, 1, 0, 0xFFFFFFFF])     # devices announce other protocol versions too
+    env = dict(sim=sim, dt=rng.choice([0, 1, 1, 1, 3]))
     if frag:
         env["frags"] = rand_frags(rng)
     return env
